@@ -9,7 +9,7 @@ NO_MSGS = ["No dependencies", "No exports", "No bindings", "No functions", "No i
 # violation keys of the search / ties (all repaired in /repo; they stay as regression classes):
 #   uasm-marker-in-text:<MARKER> (0f91cb1), uasm-test-assert-count-lost (69a2f06), uasm-string-reads-as-number:<s> (6da1960),
 #   uasm-complex-nonfinite (c00f690), uasm-float-not-roundtrip (41a5003), uasm-nan-sign-lost (1df8995),
-#   uasm-read-panics:<mutation>:<msg> (c00f690), uasm-reread-marks-wrong / uasm-reread-constant-malformed / uasm-reread-constant-count,
+#   uasm-read-panics:<mutation>:<msg> (c00f690), uasm-read-crashes:<mutation> (OPEN for bad-numbers: known finding C17-read-segfault), uasm-reread-marks-wrong / uasm-reread-constant-malformed / uasm-reread-constant-count,
 #   uasm-reread-value-marks-wrong, uasm-value-meta-roundtrip-wrong, uasm-one-row-box-map-reads-as-list (OPEN: known finding C17-one-row-box-map), uasm-read-fails:<msg>, uasm-write-panics:<msg>, uasm-run-differs:<kind>:<program>, uasm-map-layout-differs
 
 
@@ -109,6 +109,7 @@ def run(r):
         "C17_value_json_refuted_{string,complex,nan,map}_pre are records about the model of the representation before /repo 6da1960, c00f690, 1df8995, 71ff4d9",
         "C17_reread_marks_truthful is about the reader's scan over the comparisons of adjacent rows; that rows are compared as C15 models it is not re-proved here: the harness recomputes the comparisons with Value::cmp and the tie compares the model's marks with the implementation's flags",
         "run behaviour of the re-read assembly is compared on finitely many run-time argument stacks per program (search), not proved for all arguments; runs cut off by the 2 s execution limit are compared on the error only; programs whose original assembly gives different results on two runs (random numbers, clocks) are left out and counted",
+        "from_uasm on malformed texts: the mutation stream demands an error (never a panic, never a crash); mutated texts are read in a child process because a value whose shape does not fit its data crashes the reader (OPEN defect, known finding C17-read-segfault: `{\"push\":[[2,4294967296000],\"\"]}`)",
         "constants that check_value already rejects in the ORIGINAL assembly (one in tests/map.ua: a fixed empty map whose keys are rows without elements, a limit of the validator) are skipped and counted (constants_malformed_already_in_the_original)",
     ]
     if not r.harness(["c17"]):
@@ -132,6 +133,7 @@ def run(r):
     results = coq_eval_many(jobs, timeout=900)
     mism, kinds, outcomes, unparseable, premises_checked = [], {}, {"ok": 0, "no-marker": 0, "other-error": 0, "panic": 0}, 0, 0
     panics = []
+    crashes = []
     for si, (rc2, o) in enumerate(results):
         ch = cases[si * shard:(si + 1) * shard]
         sums = coq_lists(o)
@@ -145,7 +147,9 @@ def run(r):
                 outcomes["ok"] += 1
                 k = oc["ok"]  # deps exports bindings functions imacros cmacros spans files(+1000*macros) strings
                 want = [1, None, k[0], k[1], k[2], k[3], k[4], k[5], k[6] - 1, k[7] % 1000, k[7] // 1000, k[8]]
-                good = s[0] == 1 and all(w is None or w == g for w, g in zip(want, s))
+                # exports, files and macro expansions are maps in the implementation (a duplicated line is one entry): at most the model's line count
+                maplike = (3, 9, 10)
+                good = s[0] == 1 and all(w is None or w == g or (i in maplike and c["kind"] != "real" and w <= g) for i, (w, g) in enumerate(zip(want, s)))
                 if not good:
                     mism.append((c, s, "counts"))
                 elif c["kind"] == "real":
@@ -156,6 +160,9 @@ def run(r):
                 outcomes["no-marker"] += 1
                 if s[:2] != [0, NO_MSGS.index(oc["err"])]:
                     mism.append((c, s, "missing-marker"))
+            elif "crash" in oc:
+                outcomes["crash"] = outcomes.get("crash", 0) + 1
+                crashes.append(c)
             else:
                 outcomes["panic" if "panic" in oc else "other-error"] += 1
                 if "panic" in oc:
@@ -185,6 +192,16 @@ def run(r):
         seen_p.add(key)
         r.violation(key, "from_uasm panics on a (mutated) .uasm text instead of returning an error: %s" % c["outcome"]["panic"][:200],
                     {"kind": c["kind"], "program": c["src"], "text": c["text"], "panic": c["outcome"]["panic"]}, theorem="C17_framing_roundtrip")
+
+    # ... nor bring the process down (mutated texts are read in a child process)
+    seen_c = set()
+    for c in crashes:
+        key = "uasm-read-crashes:%s" % c["kind"]
+        if key in seen_c:
+            continue
+        seen_c.add(key)
+        r.violation(key, "from_uasm crashes the process (%s) on a malformed .uasm text" % c["outcome"]["crash"],
+                    {"kind": c["kind"], "program": c["src"], "text": c["text"], "crash": c["outcome"]["crash"]}, theorem="C17_framing_roundtrip")
 
     # ---------------------------------------------------------------- tie (a): values <-> JSON
     tie_values(r, quick)
